@@ -196,7 +196,7 @@ def build_jobs(tier: str) -> list:
     for name, text in sim.example_inputs().items():
         if name.startswith(('Beckers', 'example6', 'example7', 'MC_', 'SUTRA')):
             continue
-        if tier == 'quick' and name.startswith(('example_SBT', 'Wanju', 'Fervo', 'example_SHR')):
+        if tier == 'quick' and name.startswith(('example_SBT',)):
             continue
         jobs.append((f'example:{name}', text))
     return jobs
